@@ -20,6 +20,7 @@ reference encoder by C11), `Spec/Tree.lean` (C04).
 * `C05_two_nodes*` closed system (`runOthers`), loss-free, under the driver contracts `L3Contracts`
                  (`NrfProofs/C05Link.lean`): a single-frame message between two neighbours.
 * `C05_route_partial` see the end of the file.
+* `C05_*_closed*`  the same theorems with `L3Contracts` discharged (`l3contracts`, `NrfProofs/L3Discharge.lean`).
 -/
 import NrfProofs.C05Forward
 import NrfProofs.C05Closed
@@ -27,6 +28,7 @@ import NrfProofs.C05Example
 import NrfProofs.C05RouteTop
 import NrfProofs.C05Example3
 import NrfProofs.C05Reasm
+import NrfProofs.L3Discharge
 
 namespace Nrf.Props.C05
 open Nrf Nrf.Net Nrf.Spec Nrf.Proofs Nrf.Props.C04
@@ -500,7 +502,7 @@ theorem C05_two_nodes (hc : L3Contracts) (cfg : AddrCfg) (hcfg : CfgOk cfg) (L :
     (by unfold DrvState.Wf; show t.node.rf.rid < t.w.radios.length; rw [htn, htlen]; exact hWb)
     (by
       rw [htn, htrb]
-      exact hNb.of_eq_cfg rfl)
+      exact hNb.withRx _ _ _ hp5)
     (by rw [htn]; exact harr_b) (by rw [htrb]; rfl) hp5
     (by rw [hwc]) hpk (by rw [hwc]; exact hlen)
     (by rw [hidem, hwc, htn, haddr_b]; rfl)
@@ -701,6 +703,7 @@ theorem C05_route_partial (hc : L3Contracts) (cfg : AddrCfg) (hcfg : CfgOk cfg) 
     show (s1.ret).radioAt k = _
     exact (ret_facts s1 k).2.2
   have hdisty : dist (nextHopSpec x d) d + 1 = dist x d := dist_nextHop hxd
+  have hp5 : hopPipe x d ≤ 5 := (C04_listens cfg hcfg x d hxn hd hxd TX_NORMAL (Or.inl rfl)).2.1
   have H : Holding cfg L tree d (wireCopy c) pk (dist x d - 1) t := by
     refine ⟨?_, by rw [htc, htl]; exact hj, by rw [htc, hta]; exact List.mem_cons_self,
       by rw [htc, htj']; omega, ?_, ⟨hopPipe x d, ?_, by rw [htc, htrad, hs1radj]; rfl⟩, ?_, ?_⟩
@@ -715,7 +718,7 @@ theorem C05_route_partial (hc : L3Contracts) (cfg : AddrCfg) (hcfg : CfgOk cfg) 
         rw [hs1rfa, hs1rada]; exact N1
       · rw [hs1rf k hka]
         by_cases hkj : k = j
-        · subst hkj; rw [hs1radj]; exact hN'.of_eq_cfg rfl
+        · subst hkj; rw [hs1radj]; exact hN'.withRx _ _ _ hp5
         · rw [hs1rad k hk hka hkj]; exact hN'
     · intro k hk1 hkn
       obtain ⟨j', hj', htj'', hjl'⟩ := hroute (k + 1) (by omega) (by omega)
@@ -776,6 +779,158 @@ example (hc : L3Contracts) : ∃ s1 j1 jd, j1 < 3 ∧ Example.tree3 j1 = [1] ∧
     ∃ r s2, nexec apiUpdate ((s1.ret).callAs j1) = (.ok r, s2) ∧
       DeliveredOnce Example.three.nodes s2.nodes jd (val [1, 1]) 7 [9, 8, 7] :=
   C05_route_partial hc {} (by decide) Example.L Example.tree3 Example.three 2 [] 7 [9, 8, 7]
+    Example.three_ok rfl rfl (by decide) (by decide)
+    (by
+      intro i
+      match i with
+      | 0 => decide
+      | 1 => decide
+      | 2 => decide
+      | n + 3 =>
+        show val [5, 5, 5, 5 - n % 4] ≠ 0o4444
+        simp only [val]
+        omega)
+    (by decide) (by decide)
+    (by
+      intro k hk1 hk2
+      have hd : dist (Example.tree3 2) [] = 2 := by decide
+      rw [hd] at hk2
+      have : k = 1 ∨ k = 2 := by omega
+      rcases this with rfl | rfl
+      · exact ⟨1, by decide, by decide, by decide⟩
+      · exact ⟨0, by decide, by decide, by decide⟩)
+    (by
+      intro i hi
+      have hi' : i < 3 := hi
+      have : i = 0 ∨ i = 1 ∨ i = 2 := by omega
+      rcases this with rfl | rfl | rfl <;> decide)
+    (by decide) (by decide) (by decide)
+    (by
+      intro j hj htj
+      have hj' : j < 3 := hj
+      have : j = 0 ∨ j = 1 ∨ j = 2 := by omega
+      rcases this with rfl | rfl | rfl
+      · exact ⟨by decide, by intro g hg; cases hg⟩
+      · exact absurd htj (by decide)
+      · exact absurd htj (by decide))
+
+/-! ## the same, with the driver contracts proved
+
+`l3contracts : L3Contracts` (NrfProofs/L3Discharge.lean) proves the six driver contracts from the driver model
+over the chip and the air, so the closed-system theorems above hold without that hypothesis. -/
+
+/-- `C05_two_nodes_write` without the hypothesis `L3Contracts` (discharged by `l3contracts`) -/
+theorem C05_two_nodes_write_closed (cfg : AddrCfg) (hcfg : CfgOk cfg) (L : LinkCfg)
+    (s : NetState) (a b : Nat) (x y : List Nat) (Pa Pb : List Bytes) (ty : Int) (msg : Bytes)
+    (hx : IsNode x) (hy : IsNode y) (hadj : nextHopSpec x y = y) (hxy : x ≠ y)
+    (hcur : s.cur = a) (hact : s.active = [a]) (hclosed : s.closed = true)
+    (ha : a < s.nodes.length) (hb : b < s.nodes.length) (hab : a ≠ b) (hsize : s.nodes.length ≤ 100000)
+    (hrid : ∀ i, i < s.nodes.length → i ≠ a → s.ridAt i ≠ s.ridAt a)
+    (hWa : s.ridAt a < s.w.radios.length)
+    (hNa : NodeRadio L Pa true true 0x3E (s.nodeAt a).rf (s.radioAt a))
+    (haddr_a : (s.nodeAt a).a = nodeSpec x) (hcfg_a : (s.nodeAt a).cfg = cfg)
+    (hmax : msg.length ≤ (s.nodeAt a).maxMessageLength) (hlen : msg.length ≤ MAX_FRAG_SIZE)
+    (hNb : NodeRadio L Pb true true 0x3E (s.nodeAt b).rf (s.radioAt b))
+    (hPb : beginPipes cfg (val y) = .ok Pb) (hlast : (s.radioAt b).lastRx = none)
+    (hquiet : ∀ i, i < s.nodes.length → i ≠ a → (s.radioAt i).rxFifo = [])
+    (hothers : ∀ r k, r ≠ s.ridAt a → r ≠ s.ridAt b → (s.w.radio r).listensTo k = none)
+    (hfaults : s.w.faults = []) :
+    ∃ (D : DrvState) (pk A : Bytes) (pid : Nat),
+      (wireCopy (callerFrame x y s.nextId ty msg)).pack = .ok pk ∧
+      nexec (apiNetWrite (val y) ty msg AUTO_ROUTING) s =
+        (.ok (true, callerFrame x y s.nextId ty msg),
+         (prepared s (callerFrame x y s.nextId ty msg)).afterRf D) ∧
+      D.d.rid = (s.nodeAt a).rf.rid ∧ D.w.radios.length = s.w.radios.length ∧ D.w.faults = [] ∧
+      NodeRadio L Pa true true 0x3E D.d D.radio ∧ D.radio.rxFifo = (s.radioAt a).rxFifo ∧
+      D.radio.lastRx = (s.radioAt a).lastRx ∧
+      D.w.radio (s.ridAt b) =
+        (s.radioAt b).withRx [{ pipe := hopPipe x y, data := pk }] { pid := pid, addr := A, data := pk } ∧
+      (∀ r, r ≠ s.ridAt a → r ≠ s.ridAt b → D.w.radio r = s.w.radio r) :=
+  C05_two_nodes_write l3contracts cfg hcfg L s a b x y Pa Pb ty msg hx hy hadj hxy hcur hact hclosed ha hb hab
+    hsize hrid hWa hNa haddr_a hcfg_a hmax hlen hNb hPb hlast hquiet hothers hfaults
+
+/-- **`C05_two_nodes` unconditionally**: a single-frame user message between two neighbours is delivered
+    exactly once, intact (closed system, loss-free) — the driver contracts are discharged by `l3contracts` -/
+theorem C05_two_nodes_closed (cfg : AddrCfg) (hcfg : CfgOk cfg) (L : LinkCfg)
+    (s : NetState) (a b : Nat) (x y : List Nat) (Pa Pb : List Bytes) (ty : Int) (msg : Bytes)
+    (hx : IsNode x) (hy : IsNode y) (hadj : nextHopSpec x y = y) (hxy : x ≠ y)
+    (hcur : s.cur = a) (hact : s.active = [a]) (hclosed : s.closed = true)
+    (ha : a < s.nodes.length) (hb : b < s.nodes.length) (hab : a ≠ b) (hsize : s.nodes.length ≤ 100000)
+    (hrid : ∀ i j, i < s.nodes.length → j < s.nodes.length → i ≠ j → s.ridAt i ≠ s.ridAt j)
+    (hWa : s.ridAt a < s.w.radios.length) (hWb : s.ridAt b < s.w.radios.length)
+    (hNa : NodeRadio L Pa true true 0x3E (s.nodeAt a).rf (s.radioAt a))
+    (haddr_a : (s.nodeAt a).a = nodeSpec x) (hcfg_a : (s.nodeAt a).cfg = cfg)
+    (hmax : msg.length ≤ (s.nodeAt a).maxMessageLength) (hlen : msg.length ≤ MAX_FRAG_SIZE)
+    (hNb : NodeRadio L Pb true true 0x3E (s.nodeAt b).rf (s.radioAt b))
+    (hPb : beginPipes cfg (val y) = .ok Pb) (hlast : (s.radioAt b).lastRx = none)
+    (haddr_b : (s.nodeAt b).a = nodeSpec y) (harr_b : (s.nodeAt b).arrivals = [])
+    (hkind_b : (s.nodeAt b).kind ≠ .meshMaster)
+    (hquiet : ∀ i, i < s.nodes.length → (s.radioAt i).rxFifo = [])
+    (hothers : ∀ r k, r ≠ s.ridAt a → r ≠ s.ridAt b → (s.w.radio r).listensTo k = none)
+    (hfaults : s.w.faults = []) (hty : 0 ≤ ty ∧ ty ≤ 127)
+    (hroom : ((s.nodeAt b).queue.frames.length : Int) < (s.nodeAt b).queue.maxSize)
+    (hnew : ∀ g ∈ (s.nodeAt b).queue.frames, ¬ (g.header.fromNode = val x ∧
+      g.header.frameId = s.nextId &&& 0xFFFF ∧ g.header.ty = ty.toNat)) :
+    ∃ s1 s2, nexec (apiNetWrite (val y) ty msg AUTO_ROUTING) s =
+        (.ok (true, callerFrame x y s.nextId ty msg), s1) ∧
+      nexec apiUpdate ((s1.ret).callAs b) = (.ok ty.toNat, s2) ∧
+      DeliveredOnce s.nodes s2.nodes b (val x) ty.toNat msg :=
+  C05_two_nodes l3contracts cfg hcfg L s a b x y Pa Pb ty msg hx hy hadj hxy hcur hact hclosed ha hb hab hsize
+    hrid hWa hWb hNa haddr_a hcfg_a hmax hlen hNb hPb hlast haddr_b harr_b hkind_b hquiet hothers hfaults hty
+    hroom hnew
+
+/-- non-vacuity (the concrete network of `NrfProofs/C05Example.lean`), now without any open hypothesis -/
+example : ∃ s1 s2,
+    nexec (apiNetWrite (val [1]) 5 [1, 2, 3] AUTO_ROUTING) Example.two =
+      (.ok (true, callerFrame [] [1] 4 5 [1, 2, 3]), s1) ∧
+    nexec apiUpdate ((s1.ret).callAs 1) = (.ok 5, s2) ∧
+    DeliveredOnce Example.two.nodes s2.nodes 1 0 5 [1, 2, 3] :=
+  C05_two_nodes_closed {} (by decide) Example.L Example.two 0 1 [] [1] Example.P0 Example.P1 5 [1, 2, 3]
+    (by decide) (by decide) (by decide) (by decide) rfl rfl rfl (by decide) (by decide) (by decide) (by decide)
+    (by
+      intro i j hi hj hij
+      have hi' : i < 2 := hi
+      have hj' : j < 2 := hj
+      have : (i = 0 ∧ j = 1) ∨ (i = 1 ∧ j = 0) := by omega
+      rcases this with ⟨rfl, rfl⟩ | ⟨rfl, rfl⟩ <;> decide)
+    (by decide) (by decide) Example.two_radio0 (by decide) (by decide) (by decide) (by decide)
+    Example.two_radio1 Example.two_pipes1 (by decide) (by decide) (by decide) (by decide)
+    (by
+      intro i hi
+      have hi' : i < 2 := hi
+      have : i = 0 ∨ i = 1 := by omega
+      rcases this with rfl | rfl <;> decide)
+    Example.two_others (by decide) (by decide) (by decide) (by decide)
+
+/-- **`C05_route_partial` unconditionally** (the driver contracts discharged by `l3contracts`); what it
+    leaves open for the full statement is listed at `C05_route_partial` -/
+theorem C05_route_closed_partial (cfg : AddrCfg) (hcfg : CfgOk cfg) (L : LinkCfg)
+    (tree : Nat → List Nat) (s : NetState) (a : Nat) (d : List Nat) (ty : Int) (msg : Bytes)
+    (hok : NetOk cfg L tree s) (hcur : s.cur = a) (hact : s.active = [a]) (ha : a < s.nodes.length)
+    (hsize : s.nodes.length ≤ 20000) (hndef : ∀ i, val (tree i) ≠ NETWORK_DEFAULT_ADDR)
+    (hd : IsNode d) (hxd : tree a ≠ d)
+    (hroute : ∀ k, 1 ≤ k → k ≤ dist (tree a) d →
+      ∃ j, j < s.nodes.length ∧ tree j = hops k (tree a) d ∧ (s.radioAt j).lastRx = none)
+    (hquiet : ∀ i, i < s.nodes.length → (s.radioAt i).rxFifo = [])
+    (hty : 0 ≤ ty ∧ ty ≤ 64) (hlen : msg.length ≤ MAX_FRAG_SIZE)
+    (hmax : msg.length ≤ (s.nodeAt a).maxMessageLength)
+    (hacc : ∀ j, j < s.nodes.length → tree j = d →
+      Accepts (s.nodeAt j).queue (wireCopy (callerFrame (tree a) d s.nextId ty msg))) :
+    ∃ s1 j1 jd, j1 < s.nodes.length ∧ tree j1 = nextHopSpec (tree a) d ∧ jd < s.nodes.length ∧ tree jd = d ∧
+      nexec (apiNetWrite (val d) ty msg AUTO_ROUTING) s =
+        (.ok (true, callerFrame (tree a) d s.nextId ty msg), s1) ∧
+      ∃ r s2, nexec apiUpdate ((s1.ret).callAs j1) = (.ok r, s2) ∧
+        DeliveredOnce s.nodes s2.nodes jd (val (tree a)) ty.toNat msg :=
+  C05_route_partial l3contracts cfg hcfg L tree s a d ty msg hok hcur hact ha hsize hndef hd hxd hroute hquiet
+    hty hlen hmax hacc
+
+/-- non-vacuity (the chain `0o0 — 0o1 — 0o11` of `NrfProofs/C05Example3.lean`), without any open hypothesis -/
+example : ∃ s1 j1 jd, j1 < 3 ∧ Example.tree3 j1 = [1] ∧ jd < 3 ∧ Example.tree3 jd = [] ∧
+    nexec (apiNetWrite (val []) 7 [9, 8, 7] AUTO_ROUTING) Example.three =
+      (.ok (true, callerFrame [1, 1] [] 6 7 [9, 8, 7]), s1) ∧
+    ∃ r s2, nexec apiUpdate ((s1.ret).callAs j1) = (.ok r, s2) ∧
+      DeliveredOnce Example.three.nodes s2.nodes jd (val [1, 1]) 7 [9, 8, 7] :=
+  C05_route_closed_partial {} (by decide) Example.L Example.tree3 Example.three 2 [] 7 [9, 8, 7]
     Example.three_ok rfl rfl (by decide) (by decide)
     (by
       intro i
